@@ -2,6 +2,7 @@ package main
 
 import (
 	"fmt"
+	"reflect"
 	"strings"
 
 	mxj "github.com/clbanning/mxj/v2"
@@ -457,6 +458,91 @@ func sortedLeaves(l []mxj.LeafNode) []mxj.LeafNode {
 	return o
 }
 
+// realize brings a pristine package into the model state m with one explicit
+// setter call per option that differs from its default ("canonical realization").
+func realize(m *optModel) {
+	d := defaultModel()
+	if m.AttrPrefix != d.AttrPrefix {
+		mxj.SetAttrPrefix(m.AttrPrefix)
+	}
+	if m.TagSeq {
+		mxj.IncludeTagSeqNum(true)
+	}
+	if m.Lower {
+		mxj.CoerceKeysToLower(true)
+	}
+	if m.Snake {
+		mxj.CoerceKeysToSnakeCase(true)
+	}
+	if m.NoTrim {
+		mxj.DisableTrimWhiteSpace(true)
+	}
+	if m.SimpleAsMap {
+		mxj.DecodeSimpleValuesAsMap(true)
+	}
+	if m.XMPP {
+		mxj.HandleXMPPStreamTag(true)
+	}
+	if m.CastInt {
+		mxj.CastValuesToInt(true)
+	}
+	if !m.CastFloat {
+		mxj.CastValuesToFloat(false)
+	}
+	if !m.CastBool {
+		mxj.CastValuesToBool(false)
+	}
+	if m.NanInf {
+		mxj.CastNanInf(true)
+	}
+	if m.SkipFn != 0 {
+		mxj.SetCheckTagToSkipFunc(skipFns[m.SkipFn])
+	}
+	if m.GoEmpty {
+		mxj.XmlGoEmptyElemSyntax()
+	}
+	if m.CheckValid {
+		mxj.XmlCheckIsValid(true)
+	}
+	if m.EscapeDec {
+		mxj.XMLEscapeCharsDecoder(true)
+	}
+	if m.Escape {
+		mxj.XMLEscapeChars(true)
+	}
+	if m.KeyPrefix != d.KeyPrefix {
+		mxj.SetGlobalKeyMapPrefix(m.KeyPrefix)
+	}
+	if m.DotNotation {
+		mxj.LeafUseDotNotation(true)
+	}
+	if m.FieldSep != d.FieldSep {
+		mxj.SetFieldSeparator(m.FieldSep)
+	}
+	if m.ArraySize != d.ArraySize {
+		mxj.SetArraySize(m.ArraySize)
+	}
+	if m.UseNumber {
+		mxj.JsonUseNumber = true
+	}
+}
+
+func snapshotGlobals() []reflect.Value {
+	out := make([]reflect.Value, len(pristine))
+	for i, s := range pristine {
+		cp := reflect.New(s.ptr.Elem().Type()).Elem()
+		cp.Set(deepCopyValue(s.ptr.Elem()))
+		out[i] = cp
+	}
+	return out
+}
+
+func restoreGlobals(snap []reflect.Value) {
+	for i, s := range pristine {
+		s.ptr.Elem().Set(snap[i])
+	}
+}
+
 var freshHashes []Hash
 var freshGlobals Hash
 
@@ -483,12 +569,15 @@ func runC18(c *Ctx) *Violation {
 		origin[k] = "a fresh process"
 	}
 	var hist []string
+	var lastHashes []Hash
 	probe := func(after string) *Violation {
 		c.Eval()
+		lastHashes = lastHashes[:0]
 		for _, f := range families {
 			proj := f.Proj(&model)
 			k := f.Name + "\x00" + proj
 			h := HashStr(guarded(f.Run))
+			lastHashes = append(lastHashes, h)
 			c.C["probe.family_runs"]++
 			c.Distinct("projected_states", HashStr(k))
 			c.Event("probe %s [%s] -> %x", f.Name, proj, uint64(h))
@@ -500,6 +589,26 @@ func runC18(c *Ctx) *Violation {
 			} else {
 				table[k] = h
 				origin[k] = after
+			}
+		}
+		return nil
+	}
+	// reference realization: the same option values reached from a pristine package by
+	// one explicit call per option must give the same behaviour as the history did
+	reference := func(after string) *Violation {
+		c.Eval()
+		snap := snapshotGlobals()
+		resetPackageState()
+		realize(&model)
+		var ref []Hash
+		for _, f := range families {
+			ref = append(ref, HashStr(guarded(f.Run)))
+		}
+		restoreGlobals(snap)
+		c.C["probe.reference_realizations"]++
+		for i, f := range families {
+			if ref[i] != lastHashes[i] {
+				return &Violation{"C18.history-dependent/" + f.Name, fmt.Sprintf("after %s the family %q behaves differently from a pristine package brought to the same option values by one explicit setter call per option: behaviour depends on the history of option calls, not only on their current values (%s)", after, f.Name, f.Proj(&model))}
 			}
 		}
 		return nil
@@ -519,8 +628,14 @@ func runC18(c *Ctx) *Violation {
 		}
 		prevName = st.Name
 		if t.Draw(3) != 0 || i == n-1 {
-			if v := probe(fmt.Sprintf("step %d (%s)", i+1, st.Name)); v != nil {
+			after := fmt.Sprintf("step %d (%s)", i+1, st.Name)
+			if v := probe(after); v != nil {
 				return v
+			}
+			if i == n-1 || t.Draw(4) == 3 {
+				if v := reference(after); v != nil {
+					return v
+				}
 			}
 		}
 		if t.Draw(6) == 5 {
